@@ -78,6 +78,53 @@ def call(f):
         return ("ERR", type(e).__name__, str(e)[:120])
 
 
+def _snap(t):
+    if t is None:
+        return None
+    if t.is_sparse:
+        return ("S", t._indices().clone(), t._values().clone(), t._indices()._version, t._values()._version, tuple(t.shape))
+    return ("D", t.clone(), t._version, tuple(t.shape))
+
+
+def _changed(t, sn):
+    """None, or a description of how input tensor `t` differs from its snapshot"""
+    if t is None:
+        return None
+    if sn[0] == "S":
+        if tuple(t.shape) != sn[5]:
+            return f"sparse shape {tuple(t.shape)} was {sn[5]}"
+        i, v = t._indices(), t._values()
+        if i.shape != sn[1].shape or not torch.equal(i, sn[1]):
+            return f"sparse _indices() {i.tolist()} was {sn[1].tolist()}"
+        if v.shape != sn[2].shape or not torch.equal(v, sn[2]):
+            return f"sparse _values() {v.tolist()} was {sn[2].tolist()}"
+        if i._version != sn[3] or v._version != sn[4]:
+            return f"sparse _indices()/_values() written in place (_version {i._version}/{v._version} was {sn[3]}/{sn[4]})"
+        return None
+    if tuple(t.shape) != sn[3]:
+        return f"shape {tuple(t.shape)} was {sn[3]}"
+    if not torch.equal(t, sn[1]):
+        return f"values {t.reshape(-1).tolist()[:12]} were {sn[1].reshape(-1).tolist()[:12]}"
+    if t._version != sn[2]:
+        return f"written in place (_version {t._version} was {sn[2]})"
+    return None
+
+
+def call2(f, inputs):
+    """call the kernel TWICE on the same operand objects; after each call every operand must be unchanged
+    (values, sparse indices/values, shapes, version counters).  -> (first result, {second, mutated})"""
+    snaps = [_snap(t) for t in inputs]
+    res, mutated = [], None
+    for k in (1, 2):
+        res.append(call(f))
+        for j, (t, sn) in enumerate(zip(inputs, snaps)):
+            m = _changed(t, sn)
+            if m and mutated is None:
+                mutated = f"input #{j} changed by call {k}: {m}"
+    return res[0], {"second": res[1], "mutated": mutated}
+
+
+
 def parse_model(line):
     """driver output -> canonical (values as Fractions)"""
     w = line.split(" ")
@@ -162,14 +209,14 @@ def ev_toeplitz(a):
     TZ = _U()[0]
     c, r = tt(a["c"]), tt(a["r"])
     if a.get("sym"):
-        impl = call(lambda: TZ.sym_toeplitz(c))
+        impl, x2 = call2(lambda: TZ.sym_toeplitz(c), [c, r])
     else:
-        impl = call(lambda: TZ.toeplitz(c, r))
+        impl, x2 = call2(lambda: TZ.toeplitz(c, r), [c, r])
     if len(c) != len(r) or c[0] != r[0]:
         spec = err()
     else:
         spec = canon(dense_toeplitz(c, r))
-    return dict(impl=impl, spec=spec, lines=[f"toeplitz {enc(c)} {enc(r)}"])
+    return dict(impl=impl, spec=spec, lines=[f"toeplitz {enc(c)} {enc(r)}"], **x2)
 
 
 def ev_tgetitem(a):
@@ -177,21 +224,21 @@ def ev_tgetitem(a):
     c, r = tt(a["c"]), tt(a["r"])
     n = len(c)
     if a.get("sym"):
-        impl = call(lambda: torch.stack([torch.stack([TZ.sym_toeplitz_getitem(c, i, j) for j in range(n)]) for i in range(n)]))
+        impl, x2 = call2(lambda: torch.stack([torch.stack([TZ.sym_toeplitz_getitem(c, i, j) for j in range(n)]) for i in range(n)]), [c, r])
     else:
-        impl = call(lambda: torch.stack([torch.stack([TZ.toeplitz_getitem(c, r, i, j) for j in range(n)]) for i in range(n)]))
+        impl, x2 = call2(lambda: torch.stack([torch.stack([TZ.toeplitz_getitem(c, r, i, j) for j in range(n)]) for i in range(n)]), [c, r])
     spec = canon(dense_toeplitz(c, r))
     lines = [f"tgetitem {enc(c)} {enc(r)} {i} {j}" for i in range(n) for j in range(n)]
-    return dict(impl=impl, spec=spec, lines=lines, gather=("T", (n, n)))
+    return dict(impl=impl, spec=spec, lines=lines, gather=("T", (n, n)), **x2)
 
 
 def ev_tmatmul(a):
     TZ = _U()[0]
     c, r, x = tt(a["c"]), tt(a["r"]), tt(a["x"])
     if a.get("sym"):
-        impl = call(lambda: TZ.sym_toeplitz_matmul(c, x))
+        impl, x2 = call2(lambda: TZ.sym_toeplitz_matmul(c, x), [c, r, x])
     else:
-        impl = call(lambda: TZ.toeplitz_matmul(c, r, x))
+        impl, x2 = call2(lambda: TZ.toeplitz_matmul(c, r, x), [c, r, x])
     tol = 2e-5 if c.dtype == torch.float32 else 1e-11
     spec = None
     if c.shape != r.shape:
@@ -205,14 +252,13 @@ def ev_tmatmul(a):
             spec = err() if not torch.equal(cb[..., 0], rb[..., 0]) else canon(y.to(c.dtype))
         except RuntimeError:
             spec = err()
-    return dict(impl=impl, spec=spec, lines=[f"tmatmul 0 {enc(c)} {enc(r)} {enc(x)}", f"tmatmul 1 {enc(c)} {enc(r)} {enc(x)}"],
-                tol=tol, alt=True)
+    return dict(impl=impl, spec=spec, lines=[f"tmatmul 1 {enc(c)} {enc(r)} {enc(x)}"], tol=tol, **x2)
 
 
 def ev_dqf(a):
     TZ = _U()[0]
     u, v = tt(a["u"]), tt(a["v"])
-    impl = call(lambda: TZ.sym_toeplitz_derivative_quadratic_form(u, v))
+    impl, x2 = call2(lambda: TZ.sym_toeplitz_derivative_quadratic_form(u, v), [u, v])
     U2, V2 = (u.unsqueeze(1), v.unsqueeze(1)) if u.dim() == 1 else (u, v)
     m = U2.shape[-2]
     ai = torch.arange(m)
@@ -222,33 +268,33 @@ def ev_dqf(a):
         res.append((U2.double() * (D @ V2.double())).sum((-2, -1)))
     spec = canon(torch.stack(res, -1).to(u.dtype))
     tol = 5e-5 if u.dtype == torch.float32 else 1e-11
-    return dict(impl=impl, spec=spec, lines=[f"dqf {enc(u)} {enc(v)}"], tol=tol)
+    return dict(impl=impl, spec=spec, lines=[f"dqf {enc(u)} {enc(v)}"], tol=tol, **x2)
 
 
 def ev_linterp(a):
     IN = _U()[1]
     idx, val, x = tt(a["idx"]), tt(a["val"]), tt(a["x"])
-    impl = call(lambda: IN.left_interp(idx, val, x))
+    impl, x2 = call2(lambda: IN.left_interp(idx, val, x), [idx, val, x])
     n = x.shape[0] if x.dim() == 1 else x.shape[-2]
     spec = canon(torch.matmul(dense_interp(idx, val, n), x))
-    return dict(impl=impl, spec=spec, lines=[f"linterp {enc(idx)} {enc(val)} {enc(x)}"])
+    return dict(impl=impl, spec=spec, lines=[f"linterp {enc(idx)} {enc(val)} {enc(x)}"], **x2)
 
 
 def ev_ltinterp(a):
     IN = _U()[1]
     idx, val, x, od = tt(a["idx"]), tt(a["val"]), tt(a["x"]), a["outdim"]
-    impl = call(lambda: IN.left_t_interp(idx, val, x, od))
+    impl, x2 = call2(lambda: IN.left_t_interp(idx, val, x, od), [idx, val, x])
     W = dense_interp(idx, val, od)
     spec = canon(torch.matmul(W.transpose(-1, -2), x))
-    return dict(impl=impl, spec=spec, lines=[f"ltinterp {enc(idx)} {enc(val)} {enc(x)} {od}"])
+    return dict(impl=impl, spec=spec, lines=[f"ltinterp {enc(idx)} {enc(val)} {enc(x)} {od}"], **x2)
 
 
 def ev_mksparse(a):
     SP = _U()[2]
     idx, val, nr = tt(a["idx"]), tt(a["val"]), a["nrows"]
-    impl = call(lambda: SP.make_sparse_from_indices_and_values(idx, val, nr))
+    impl, x2 = call2(lambda: SP.make_sparse_from_indices_and_values(idx, val, nr), [idx, val])
     spec = canon(dense_interp(idx, val, nr).transpose(-1, -2).contiguous())
-    return dict(impl=impl, spec=spec, lines=[f"mksparse {enc(idx)} {enc(val)} {nr}"])
+    return dict(impl=impl, spec=spec, lines=[f"mksparse {enc(idx)} {enc(val)} {nr}"], **x2)
 
 
 def ev_bdsmm(a):
@@ -256,14 +302,16 @@ def ev_bdsmm(a):
     s, d = sp(a["s"]), tt(a["d"])
     if a.get("via") == "dsmm":
         from linear_operator import dsmm
-        impl = call(lambda: dsmm(s, d))
+        f = lambda: dsmm(s, d)  # noqa
     else:
-        impl = call(lambda: SP.bdsmm(s, d))
+        f = lambda: SP.bdsmm(s, d)  # noqa
     try:
         spec = canon(torch.matmul(s.to_dense(), d))
     except RuntimeError:
         spec = err()
-    return dict(impl=impl, spec=spec, lines=[f"bdsmm 0 {encsp(s)} {enc(d)}", f"bdsmm 1 {encsp(s)} {enc(d)}"], alt=True)
+    line = f"bdsmm 1 {encsp(s)} {enc(d)}"
+    impl, x2 = call2(f, [s, d])
+    return dict(impl=impl, spec=spec, lines=[line], **x2)
 
 
 def ev_dsmmback(a):
@@ -275,12 +323,13 @@ def ev_dsmmback(a):
         out = dsmm(s, x)
         out.backward(g)
         return x.grad
-    impl = call(run)
     x = d.clone().requires_grad_(True)
     torch.matmul(s.to_dense(), x).backward(g)
     spec = canon(x.grad)
+    line = f"dsmmback 1 {encsp(s)} {enc(g)}"
+    impl, x2 = call2(run, [s, d, g])
     # model: bdsmm(S^T, g) has the broadcast batch shape; autograd sums it down to the shape of `d`
-    return dict(impl=impl, spec=spec, lines=[f"dsmmback 0 {encsp(s)} {enc(g)}"], sumto=tuple(d.shape))
+    return dict(impl=impl, spec=spec, lines=[line], sumto=tuple(d.shape), **x2)
 
 
 def ev_speye(a):
@@ -303,22 +352,25 @@ def ev_spgetitem(a):
     dense = s.to_dense()
     ix = _ix(a["items"])
     arg = ix[0] if (len(ix) == 1 and a.get("bare")) else ix
-    impl = call(lambda: SP.sparse_getitem(sp(a["s"]), arg))
     if any(isinstance(i, slice) and i.step not in (None, 1) for i in ix):
         spec = err()
     else:
         spec = canon(dense[ix])
     items = ";".join(f"i{it[1]}" if it[0] == "i" else "s" + ":".join("n" if v is None else str(v) for v in it[1:]) for it in a["items"])
-    return dict(impl=impl, spec=spec, lines=[f"spgetitem 0 {encsp(s)} {items}", f"spgetitem 1 {encsp(s)} {items}"], alt=True)
+    line = f"spgetitem 1 {encsp(s)} {items}"
+    impl, x2 = call2(lambda: SP.sparse_getitem(s, arg), [s])
+    return dict(impl=impl, spec=spec, lines=[line], **x2)
 
 
 def ev_sprepeat(a):
     SP = _U()[2]
     s, reps = sp(a["s"]), a["reps"]
-    impl = call(lambda: SP.sparse_repeat(s, *reps)) if not a.get("tuplearg") else call(lambda: SP.sparse_repeat(s, tuple(reps)))
     spec = canon(s.to_dense().repeat(*reps))
     r = ",".join(map(str, reps))
-    return dict(impl=impl, spec=spec, lines=[f"sprepeat 0 {encsp(s)} {r}", f"sprepeat 1 {encsp(s)} {r}"], alt=True)
+    line = f"sprepeat 1 {encsp(s)} {r}"
+    f = (lambda: SP.sparse_repeat(s, *reps)) if not a.get("tuplearg") else (lambda: SP.sparse_repeat(s, tuple(reps)))
+    impl, x2 = call2(f, [s])
+    return dict(impl=impl, spec=spec, lines=[line], **x2)
 
 
 def ev_tosparse(a):
@@ -332,8 +384,9 @@ def ev_tosparse(a):
         if not res.is_sparse or tuple(res.shape) != tuple(d.shape):
             raise AssertionError("to_sparse did not return a sparse tensor of the same shape")
         return res
-    impl = call(run)
-    return dict(impl=impl, spec=canon(d), lines=[f"tosparse {enc(d)}"])
+    spec = canon(d.clone())
+    impl, x2 = call2(run, [d])
+    return dict(impl=impl, spec=spec, lines=[f"tosparse {enc(d)}"], **x2)
 
 
 def ev_perm(a):
@@ -343,9 +396,9 @@ def ev_perm(a):
     r = tt(a["r"]) if a.get("r") else None
     if a.get("asop"):
         from linear_operator.operators import DenseLinearOperator
-        impl = call(lambda: PM.apply_permutation(DenseLinearOperator(K), l, r))
+        impl, x2 = call2(lambda: PM.apply_permutation(DenseLinearOperator(K), l, r), [K, l, r])
     else:
-        impl = call(lambda: PM.apply_permutation(K, l, r))
+        impl, x2 = call2(lambda: PM.apply_permutation(K, l, r), [K, l, r])
     # dense definition: Π_l K Π_r^T as explicit (partial) permutation matrices
     m, n = K.shape[-2:]
     out = K
@@ -356,13 +409,13 @@ def ev_perm(a):
         Pr = torch.nn.functional.one_hot(r, n).to(K.dtype)  # (..., nr, n)
         out = torch.matmul(out, Pr.transpose(-1, -2))
     spec = canon(out)
-    return dict(impl=impl, spec=spec, lines=[f"perm {enc(K)} {enc(l) if l is not None else 'N'} {enc(r) if r is not None else 'N'}"])
+    return dict(impl=impl, spec=spec, lines=[f"perm {enc(K)} {enc(l) if l is not None else 'N'} {enc(r) if r is not None else 'N'}"], **x2)
 
 
 def ev_invperm(a):
     PM = _U()[3]
     p = tt(a["p"])
-    impl = call(lambda: PM.inverse_permutation(p))
+    impl, x2 = call2(lambda: PM.inverse_permutation(p), [p])
     flat = p.reshape(-1, p.shape[-1]).tolist()
     inv = []
     for row in flat:
@@ -371,7 +424,7 @@ def ev_invperm(a):
             q[v] = i
         inv.append(q)
     spec = canon(torch.tensor(inv, dtype=p.dtype).reshape(p.shape))
-    return dict(impl=impl, spec=spec, lines=[f"invperm {enc(p)}"])
+    return dict(impl=impl, spec=spec, lines=[f"invperm {enc(p)}"], **x2)
 
 
 def ev_mbshape(a):
@@ -412,11 +465,11 @@ def ev_stableqr(a):
     with settings.stable_qr_cpu_threshold(a.get("threshold", 128)):
         with ctx:
             Q0, R0 = torch.linalg.qr(A)
-            try:
+
+            def runqr():
                 Q, R = stable_qr(A)
-                impl = ("T", tuple(Q.shape) + tuple(R.shape), [float(v) for v in Q.reshape(-1).tolist() + R.reshape(-1).tolist()], DTN[R.dtype])
-            except Exception as e:  # noqa
-                impl = ("ERR", type(e).__name__, str(e)[:100])
+                return ("T", tuple(Q.shape) + tuple(R.shape), [float(v) for v in Q.reshape(-1).tolist() + R.reshape(-1).tolist()], DTN[R.dtype])
+            impl, x2 = call2(runqr, [A])
     d = torch.diagonal(R0, dim1=-2, dim2=-1)
     zeroish = d.abs() < 1e-6
     Rs = R0.clone()
@@ -426,8 +479,8 @@ def ev_stableqr(a):
     spec = ("T", tuple(Q0.shape) + tuple(Rs.shape), [float(v) for v in Q0.reshape(-1).tolist() + Rs.reshape(-1).tolist()], DTN[Rs.dtype])
     lines = []
     if A.dim() == 2:
-        lines = [f"stableqr 0 {enc(R0)}", f"stableqr 1 {enc(R0)}"]
-    res = dict(impl=impl, spec=spec, lines=lines, tol=1e-12 if A.dtype == torch.float64 else 1e-6, extra_contract=(A, ov), alt=True)
+        lines = [f"stableqr 1 {enc(R0)}"]
+    res = dict(impl=impl, spec=spec, lines=lines, tol=1e-12 if A.dtype == torch.float64 else 1e-6, extra_contract=(A, ov), **x2)
     if impl[0] == "T" and lines:
         res["impl_for_model"] = ("T", tuple(R0.shape), impl[2][-R0.numel():])
     return res
@@ -466,7 +519,7 @@ def frac_pinv(rows):
 def ev_pinv(a):
     from linear_operator.utils.pinverse import stable_pinverse
     A = tt(a["A"])
-    impl = call(lambda: stable_pinverse(A))
+    impl, x2 = call2(lambda: stable_pinverse(A), [A])
     mats = A.reshape(-1, *A.shape[-2:])
     out = []
     for M in mats:
@@ -480,7 +533,7 @@ def ev_pinv(a):
         Qt, Rt = torch.linalg.qr(A.mT)
         lines = [f"pinv {m} {n} {enc(Qa)} {enc(Ra)} {enc(Qt)} {enc(Rt)}"]
     tol = 1e-9 if A.dtype == torch.float64 else 2e-4
-    return dict(impl=impl, spec=spec, lines=lines, tol=tol)
+    return dict(impl=impl, spec=spec, lines=lines, tol=tol, **x2)
 
 
 def ev_pinv_deficient(a):
@@ -489,8 +542,12 @@ def ev_pinv_deficient(a):
     from linear_operator.utils.pinverse import stable_pinverse
     from linear_operator.utils.qr import stable_qr
     A = tt(a["A"])
+    sn = _snap(A)
     try:
         P = stable_pinverse(A)
+        P2 = stable_pinverse(A)
+        if _changed(A, sn) or not torch.equal(P, P2):
+            raise AssertionError("input changed or second call differs: " + str(_changed(A, sn)))
         m, n = A.shape[-2:]
         B = A if m >= n else A.mT
         Q, R = stable_qr(B)
@@ -553,6 +610,22 @@ def rand_sparse(rng, shape, dtype, dup=False, density=0.6, empty=False):
     ind = torch.tensor([e[0] for e in ents], dtype=torch.long).reshape(-1, nd).t()
     vals = torch.tensor([float(e[1]) for e in ents], dtype=dtype)
     return torch.sparse_coo_tensor(ind, vals, tuple(shape))
+
+
+def box_sparse(rng, shape, box, density=1.0, dup=False):
+    """sparse tensor whose stored entries all lie inside `box` = ((lo, hi), ...) per dimension"""
+    ents = []
+    for ix in itertools.product(*[range(lo, hi) for lo, hi in box]):
+        if rng.random() < density:
+            ents.append((list(ix), rng.choice([-3, -2, -1, 1, 2, 3])))
+    if not ents:
+        ents.append(([lo for lo, _ in box], 2))
+    if dup:
+        e = rng.choice(ents)
+        ents.append((e[0], rng.choice([-2, 1, 2])))
+    rng.shuffle(ents)
+    ind = torch.tensor([e[0] for e in ents], dtype=torch.long).reshape(-1, len(shape)).t()
+    return torch.sparse_coo_tensor(ind, torch.tensor([float(e[1]) for e in ents], dtype=torch.float64), tuple(shape))
 
 
 def gen_cases(rng, tier):
@@ -715,6 +788,33 @@ def gen_cases(rng, tier):
                         items=[list(it) for it in items], bare=(len(items) == 1 and rng.random() < 0.5))
             s = rand_sparse(rng, shape, torch.float64)
             add(f"C20/sparse_getitem/err=step/shape={bname(shape)}", "spgetitem", s=sparg(s), items=[["s", 0, None, 2]])
+        # "nothing to filter" inputs: EVERY stored entry lies inside the slice (start > 0) / in the selected row or column,
+        # in every position of the index tuple (a shortcut that skips the copy must not touch the caller's tensor)
+        for shape, box in (((4,), ((1, 4),)), ((5,), ((2, 4),)), ((3, 3), ((1, 3), (1, 3))), ((4, 5), ((1, 3), (2, 5))),
+                           ((5, 2), ((3, 5), (1, 2))), ((4, 3), ((2, 3), (0, 3))), ((3, 4), ((0, 3), (1, 2)))):
+            opts = []
+            for d, (lo, hi) in enumerate(box):
+                sz = shape[d]
+                o = [("s", None, None, None)]
+                if lo > 0:
+                    o += [("s", lo, hi, None), ("s", lo, None, None), ("s", lo - sz, None, None), ("s", lo, sz + 2, None)]
+                    if lo > 1:
+                        o.append(("s", 1, None, None))
+                if hi - lo == 1:
+                    o += [("i", lo), ("i", lo - sz)]
+                opts.append(o)
+            tuples = [(x,) for x in opts[0]]
+            if len(shape) == 2:
+                tuples += [(x, y) for x in opts[0] for y in opts[1]]
+            for items in tuples:
+                if all(it == ("s", None, None, None) for it in items):
+                    continue
+                for kind in ("full", "part", "dup"):
+                    s = box_sparse(rng, shape, box, density=1.0 if kind == "full" else 0.6, dup=(kind == "dup"))
+                    desc = ",".join(("int" if it[0] == "i" else "all" if it[1:] == (None, None, None) else f"slice{'P' if it[1] > 0 else 'N'}")
+                                    for it in items)
+                    add(f"C20/sparse_getitem/allkept/shape={bname(shape)}/box={'_'.join(f'{lo}-{hi}' for lo, hi in box)}/{desc}/{kind}",
+                        "spgetitem", s=sparg(s), items=[list(it) for it in items], bare=(len(items) == 1 and rng.random() < 0.5))
         # ---------------------------------------------------------------- sparse_repeat
         for shape in ((1,), (3,), (1, 1), (1, 3), (2, 1), (2, 3), (1, 2, 3), (2, 1, 2)):
             nd = len(shape)
@@ -722,6 +822,7 @@ def gen_cases(rng, tier):
             for i in range(nd):
                 for k in (2, 3):
                     rlist.append(tuple(k if j == i else 1 for j in range(nd)))
+            rlist.append((1,) + tuple(1 for _ in shape))       # nothing to repeat, one new leading dim
             rlist.append(tuple(2 for _ in shape))
             rlist.append((2,) + tuple(1 for _ in shape))      # one new leading dim
             rlist.append((3, 2) + tuple(1 for _ in shape))    # two new leading dims
@@ -893,6 +994,11 @@ def worker_main(path, start):
             ok, what = same(impl, spec, tol), None
             if not ok:
                 what = f"{kernel}: implementation {short(impl)} != dense definition {short(spec)}"
+            elif res.get("mutated"):
+                ok, what = False, f"{kernel}: {res['mutated']} (a corrupted operand makes every later call on it wrong)"
+            elif "second" in res and not same(res["second"], spec, tol):
+                ok, what = False, (f"{kernel}: SECOND call on the same operands {short(res['second'])} != dense definition {short(spec)} "
+                                   f"(first call agreed)")
             else:
                 ex = extra_checks(kernel, args, res)
                 if ex:
